@@ -135,5 +135,14 @@ func f(a, b A, c, d B) int {
 	s.Files["pkg/c.go"] = "package pkg\n\nfunc h(c, d *B) bool { return   deriveEqualB(c, d) } // not formatted, not renamed without -autoname\n"
 	s.Files["pkg/a_test.go"] = "package pkg\n\nimport \"testing\"\n\nfunc TestX(t *testing.T) {\n\tif !deriveEqualInTest(&A{}, &A{}) {\n\t\tt.Fatal()\n\t}\n}\n"
 	out = append(out, s)
+
+	// files with //line directives (generated from a grammar / a template): positions reported by
+	// the file set name OTHER paths, which exist; nothing but the real files may be touched
+	s = base("line-directive", "line-directive")
+	s.Files["pkg/a.go"] = "//line gen/a.y:1\npackage pkg\n\nfunc f(a, b *A) bool { return deriveEqual(a, b) }\n"
+	s.Files["pkg/gen/a.y"] = "%token NUM\n%%\nexpr: NUM ;\n"
+	s.Files["pkg/z.go"] = "//line tmpl/z.go:3\npackage pkg\n\nfunc g(c, d *B) bool {\n\treturn   deriveEqual(c, d) // same name, other types: renamed under -autoname\n}\n"
+	s.Files["pkg/tmpl/z.go"] = "package tmpl\n\n// the template z.go was instantiated from\n\nfunc X() {}\n"
+	out = append(out, s)
 	return out
 }
